@@ -47,6 +47,38 @@ type Check struct {
 	// the other properties such a transition cannot be judged: it is counted
 	// in the evidence (worker_deaths) and skipped; C05 owns it.
 	DeathIsViolation bool
+	// Cross (thorough tier only): besides its own units the check explores the
+	// quick-tier history units of the checks named in CrossFrom, judged by its
+	// own general-purpose monitors CrossMonitors — every oracle over every
+	// alphabet the framework knows, not only over the alphabets written for it.
+	CrossMonitors []Monitor
+	CrossFrom     []string
+}
+
+// AllUnits is the unit list of a check for a tier: its own units plus, in the
+// thorough tier, the borrowed ones (see Check.CrossFrom). Master and workers
+// both build the list through this function, so unit indices agree.
+func (c *Check) AllUnits(tier string) []Unit {
+	units := c.Units(tier)
+	if tier != "thorough" || len(c.CrossMonitors) == 0 {
+		return units
+	}
+	for _, id := range c.CrossFrom {
+		src := Lookup(id)
+		if src == nil || id == c.ID {
+			continue
+		}
+		for _, un := range src.Units("quick") {
+			if un.Sc == nil {
+				continue
+			}
+			sc := *un.Sc
+			sc.Name = "cross/" + id + "/" + sc.Name
+			sc.Monitors = c.CrossMonitors
+			units = append(units, Unit{Sc: &sc})
+		}
+	}
+	return units
 }
 
 var registry = map[string]*Check{}
@@ -107,7 +139,7 @@ var IsWorker bool
 func WorkerMain(check *Check, tier string, in io.Reader, out io.Writer) {
 	IsWorker = true
 	debug.SetMaxStack(4 << 20)
-	units := check.Units(tier)
+	units := check.AllUnits(tier)
 	w := bufio.NewWriterSize(out, 1<<16)
 	sc := bufio.NewScanner(in)
 	sc.Buffer(make([]byte, 1<<20), 1<<24)
@@ -204,7 +236,7 @@ func Fatalf(format string, a ...interface{}) {
 // loop over the ops plus the oracle. Exit code 1 iff the rule fires again.
 func ReplayFile(c *Check, rp Replay) int {
 	debug.SetMaxStack(4 << 20)
-	units := c.Units(rp.Tier)
+	units := c.AllUnits(rp.Tier)
 	if rp.Unit >= len(units) {
 		Fatalf("unit %d out of range", rp.Unit)
 	}
